@@ -120,6 +120,23 @@ class TetPair(Scenario):
             (pl[0][k] is pl[1][k] or (not is_symbolic(pl[0][k]) and not is_symbolic(pl[1][k]) and pl[0][k] == pl[1][k] == pl[2][k]))
             for k in range(3))
         sfx = "_same_branch" if same_branch else ""
+        if same_branch:
+            # known finding K02 covers exactly the library's criterion |d| < 10*eps (plane through the frame origin);
+            # the same branch taken for any other plane is a different defect and must not be masked
+            # (the equal-pressure plane is recomputed here, independently, from the two linear potentials)
+            E1, E2 = self.args.get("E1", 1.0), self.args.get("E2", 1.0)
+            (Ta, ea, Ea), (Tb, eb, Eb) = ((T2, inp["e2"], E2), (T1, inp["e1"], E1)) if self.args.get("swap") else ((T1, inp["e1"], E1), (T2, inp["e2"], E2))
+
+            def field(T, e, x):
+                lam, V = bary(T, x)
+                return DOT(e, lam) / V
+            O = [0.0, 0.0, 0.0]
+            c = Ea * field(Ta, ea, O) - Eb * field(Tb, eb, O)
+            g = [Ea * field(Ta, ea, ax) - Eb * field(Tb, eb, ax) - c for ax in ([1.0, 0.0, 0.0], [0.0, 1.0, 0.0], [0.0, 0.0, 1.0])]
+            eps10 = 1e-9          # generous: the library's own test (10*eps) is evaluated on rounded values
+            d_small = OR(NORM2(g) == 0, c * c < eps10 * eps10 * NORM2(g))
+            if not bool(d_small):
+                sfx = "_same_branch_for_plane_off_origin"
         # reported intersection => the tetrahedra are not separated by any plane
         n = [P["aux_nx"], P["aux_ny"], P["aux_nz"]]
         s = P["aux_s"]
@@ -168,7 +185,7 @@ class TetPair(Scenario):
                 p2 = out["poly2"]
                 same2 = len(p2) == 3 and all((p2[0][k] is p2[1][k]) or (not is_symbolic(p2[0][k]) and not is_symbolic(p2[1][k])
                                                                         and p2[0][k] == p2[1][k] == p2[2][k]) for k in range(3))
-                ob.require("order_independent_polygon" + ("_same_branch" if (same_branch or same2) else ""), exact=ex, tol=tl)
+                ob.require("order_independent_polygon" + (sfx if sfx else ("_same_branch" if same2 else "")), exact=ex, tol=tl)
 
 
 def make(family, args):
